@@ -413,17 +413,31 @@ class Parser:
     def p_calculation_expression(self, p: P) -> None:
         p[0] = p[1]
 
+    def _check_calculation_result(self, p: P, value: int) -> int:
+        """Checks the result of a calculation can be written as a decimal integer
+        (Python limits the number of digits), returns it."""
+        try:
+            str(value)
+        except ValueError:
+            raise CalculationExpressionError(
+                message="Result of calculation expression has too many digits.",
+                filepath=self.current_filepath(),
+                token=p[2],
+                lineno=p.lineno(2),
+            )
+        return value
+
     @override_docstring(r_calculation_expression_plus)
     def p_calculation_expression_plus(self, p: P) -> None:
-        p[0] = p[1] + p[3]
+        p[0] = self._check_calculation_result(p, p[1] + p[3])
 
     @override_docstring(r_calculation_expression_minus)
     def p_calculation_expression_minus(self, p: P) -> None:
-        p[0] = p[1] - p[3]
+        p[0] = self._check_calculation_result(p, p[1] - p[3])
 
     @override_docstring(r_calculation_expression_times)
     def p_calculation_expression_times(self, p: P) -> None:
-        p[0] = p[1] * p[3]
+        p[0] = self._check_calculation_result(p, p[1] * p[3])
 
     @override_docstring(r_calculation_expression_divide)
     def p_calculation_expression_divide(self, p: P) -> None:
